@@ -616,10 +616,13 @@ def r4_3(rep):
     if rep.check(len(decl) == 1, "static:site", "one `pub static` emission", vb.loc(vb.root)):
         q = decl[0]
         ints = q.interps()
-        mm = ints.get("maybe_mut")
+        # the interpolation right after `static` (whatever the local is called)
+        ti = q.tokens.index("static") if "static" in q.tokens else -1
+        MM = q.tokens[ti + 1][1:] if ti >= 0 and ti + 1 < len(q.tokens) and q.tokens[ti + 1].startswith("#") else "maybe_mut"
+        mm = ints.get(MM)
         v = val(vb, mm) if mm is not None else ("?",)
         ok = v[0] == "if" and v[1] == "param:self.ir::var::Var::is_const" and v[2] == ("tok", "") and v[3] == ("tok", "mut")
-        rep.check(ok and q.has("pub", "static", "#maybe_mut"), "static:mut-iff-not-const", "`static` for const globals, `static mut` otherwise: %s" % show(v, 80), q.loc())
+        rep.check(ok and q.has("pub", "static", "#" + MM), "static:mut-iff-not-const", "`static` for const globals, `static mut` otherwise: %s" % show(v, 80), q.loc())
         ty = vb.canon(ints["ty"], 5) if "ty" in ints else ""
         rep.check(ty == "<T as codegen::ToRustTyOrOpaque>::to_rust_ty_or_opaque(param:self.ir::var::Var::ty, param:ctx, ())", "static:type", "the declared type is the variable's own type: %s" % ty[-80:], q.loc())
         atoms = guard_atoms(vb, q.root)
@@ -771,7 +774,9 @@ def r4_5(rep):
     is evaluated for every integer variable and a value always wins in Var::codegen) loses both the symbol and the mutability."""
     prog = rep.prog
     vp = rep.need(prog.impl_fn("parse::ClangSubItemParser", "ir::var::Var", "parse"), "<Var as ClangSubItemParser>::parse")
-    lets = [n for n in vp.walk() if n["k"] == "Let" and n["pat"].get("name") == "is_const"]
+    lets = [n for n in vp.walk() if n["k"] == "Let" and n.get("init") is not None and n["pat"].get("k") == "Bind" and
+            (vp.prog.types[n["pat"]["t"]] if n["pat"].get("t") is not None else "") == "bool" and
+            any(x["k"] == "MCall" and x.get("name") == "is_const" for x in vp.walk(n["init"]))]
     if rep.check(len(lets) == 1, "var:is_const-definition", "one definition of is_const in Var::parse", vp.loc(vp.root)):
         calls = [(c.get("callee") or "") + "@" + vp.canon(c["recv"], 3) for c in vp.calls(lambda n: n["k"] == "MCall" and n["name"] == "is_const", lets[0]["init"])]
         rep.check(any("canonical_type" in c for c in calls), "var:constness-through-typedef",
